@@ -262,7 +262,7 @@ func C10(tier string) int {
 	if res.Thorough() {
 		bound = 2
 	}
-	corpus := Corpus()
+	corpus := CorpusWithHooks()
 	parallel(len(corpus), func(i int) {
 		sc := corpus[i]
 		var viols []c10viol
